@@ -39,6 +39,9 @@ class ScannerStub:
         self.started = False
 
 
+REQUEST_DELAY = [0.0]  # simulated duration of an mDNS query that the cache cannot answer (set per run by the check)
+
+
 def install() -> None:
     global _installed
     if _installed:
@@ -49,6 +52,14 @@ def install() -> None:
 
     class SimServiceInfo(AsyncServiceInfo):
         async def async_request(self, zc, timeout, question_type=None, addr=None, port=5353):
+            # the real one answers from the cache when it can and otherwise sends questions and WAITS (up to `timeout` ms) for the
+            # records to arrive; REQUEST_DELAY[0] is how long that takes in this run (0 = the call never suspends)
+            if self.load_from_cache(zc):
+                return True
+            if REQUEST_DELAY[0] > 0:
+                import asyncio
+
+                await asyncio.sleep(min(REQUEST_DELAY[0], timeout / 1000.0))
             return self.load_from_cache(zc)
 
     hz.AsyncServiceBrowser = BrowserStub
